@@ -1,6 +1,7 @@
 /- Driver ops for C07 (regularization matrices). -/
 import Driver.Loop
 import Model.Regularization
+import Model.RegularizationRect
 
 open Lean Model
 
@@ -65,9 +66,10 @@ def getNatTable (n : Nat) (j : Json) : Except String (List (List Nat)) := do
 structure Num (α : Type) where
   get : Json → Except String α
   put : α → Json
+  ofRat : Rat → α
 
-def ratNum : Num Rat := ⟨getRat, ratToJson⟩
-def floatNum : Num Float := ⟨getFloat, floatToJson⟩
+def ratNum : Num Rat := ⟨getRat, ratToJson, id⟩
+def floatNum : Num Float := ⟨getFloat, floatToJson, ratToFloat⟩
 
 def matToJson (N : Num α) (M : List (List α)) : Json := listToJson (listToJson N.put) M
 
@@ -81,17 +83,53 @@ def splitToJson (N : Num α) (t : Impl.SplitTables α) : Json :=
   obj [("mappings", listToJson intsToJson t.mappings), ("sizes", natsToJson t.sizes),
        ("weights", matToJson N t.weights)]
 
+/-- `x ** signal_scale` in double precision (numpy's float power), as a function on exact rationals:
+    the `pow` parameter of `adaptivePixelSignals` for non-integer scales -/
+def floatPow (scale : Float) (v : Rat) : Rat :=
+  (floatToRat? (Float.pow (ratToFloatSafe v) scale)).getD 0
+
+/-- the `pow` parameter from the JSON `signal_scale` ("p/q"): exact natural-number power when the scale is
+    a natural number, numpy's double-precision power otherwise -/
+def getPow (j : Json) : Except String (Rat → Rat) := do
+  let sc ← getRat j
+  if sc.den == 1 && sc.num ≥ 0 then pure (fun v => v ^ sc.num.toNat)
+  else pure (floatPow (ratToFloatSafe sc))
+
+/-- `mapper.pixel_signals_from(signal_scale)` from the mapper's own tables (exact means, then `pow`) -/
+def mapperSignals (j : Json) : Except String (List Rat) := do
+  let pixels ← getNat (← field j "pixels")
+  let pw ← getRatMat (← field j "pixel_weights")
+  let idx ← getIntMat (← field j "pix_indexes")
+  let sz ← getNats (← field j "pix_sizes")
+  let sfs ← getNats (← field j "slim_for_sub")
+  let ad ← getRats (← field j "adapt_data")
+  let pow ← getPow (← field j "signal_scale")
+  pure (Impl.adaptivePixelSignals pow pixels pw idx sz sfs ad)
+
+/-- the linear object a scheme reads.  Two ways to supply the neighbour table: `"neighbors"`/`"sizes"`
+    (the implementation's own table, an input) or `"mesh_shape": [H, W]` (a rectangular mesh: the model's
+    own `rectangular_neighbors_from`, `Impl.rectMeshNeighbors`).  Two ways to supply the pixel signals:
+    `"signals"` (the implementation's, an input) or `"mapper"` (the mapper tables + adapt image: the
+    model's own `adaptive_pixel_signals_from`). -/
 def getObj [Zero α] (N : Num α) (j : Json) : Except String (Impl.LinObj α) := do
   let params ← getNat (← field j "params")
-  let neighbors ← match j.getObjVal? "neighbors" with
-    | .ok v => getNatTable params v
-    | .error _ => pure []
-  let sizes ← match j.getObjVal? "sizes" with
-    | .ok v => getNats v
-    | .error _ => pure []
-  let signals ← match j.getObjVal? "signals" with
-    | .ok v => getList N.get v
-    | .error _ => pure []
+  let meshShape ← match j.getObjVal? "mesh_shape" with
+    | .ok v => do
+      let hw ← getNats v
+      pure (some (hw.getD 0 0, hw.getD 1 0))
+    | .error _ => pure none
+  let neighbors ← match meshShape, j.getObjVal? "neighbors" with
+    | some (h, w), _ => pure (Impl.rectMeshNeighbors h w)
+    | none, .ok v => getNatTable params v
+    | none, .error _ => pure []
+  let sizes ← match meshShape, j.getObjVal? "sizes" with
+    | some (h, w), _ => pure (Impl.rectMeshSizes h w)
+    | none, .ok v => getNats v
+    | none, .error _ => pure []
+  let signals ← match j.getObjVal? "mapper", j.getObjVal? "signals" with
+    | .ok m, _ => do pure ((← mapperSignals m).map N.ofRat)
+    | .error _, .ok v => getList N.get v
+    | .error _, .error _ => pure []
   let split ← match j.getObjVal? "split" with
     | .ok v => getSplit N v
     | .error _ => pure { mappings := [], sizes := [], weights := [] }
@@ -197,8 +235,10 @@ def util : Op := fun j => do
     let sz ← getNats (← field j "pix_sizes")
     let sfs ← getNats (← field j "slim_for_sub")
     let ad ← getRats (← field j "adapt_data")
-    let scale ← getNat (← field j "signal_scale")
-    pure (ratsToJson (Impl.adaptivePixelSignals (fun v => v ^ scale) pixels pw idx sz sfs ad))
+    let pow ← getPow (← field j "signal_scale")
+    let acc := Impl.pixelSignalAccum pixels pw idx sz sfs ad
+    pure (obj [("signals", ratsToJson (Impl.adaptivePixelSignals pow pixels pw idx sz sfs ad)),
+               ("sums", ratsToJson acc.1), ("counts", ratsToJson acc.2)])
   | _ => throw "bad fn"
 
 /-- `gauss_cov_matrix_from` / `exp_cov_matrix_from` (Float: `sqrt`, `exp` are libm's) -/
@@ -241,8 +281,19 @@ def inversion : Op := fun j => do
     ("reduced", matToJson ratNum (Impl.reducedMatrix objs)),
     ("no_reg", natsToJson (Impl.noRegIndexList (objs.map fun o => (o.1, o.2.isSome))))])
 
+/-- `mesh_util.rectangular_neighbors_from(shape_native)` (the raw `-1`-padded array and the sizes) and the
+    table the regularization loops read from it -/
+def rectNeighbors : Op := fun j => do
+  let hw ← getNats (← field j "shape")
+  let h := hw.getD 0 0
+  let w := hw.getD 1 0
+  let t := Impl.rectNeighbors h w
+  pure (obj [("neighbors", listToJson intsToJson t.1), ("sizes", natsToJson t.2),
+             ("read", listToJson natsToJson (Impl.rectMeshNeighbors h w))])
+
 def ops : List (String × Op) :=
-  [("c07.scheme", scheme), ("c07.util", util), ("c07.cov", cov), ("c07.inversion", inversion)]
+  [("c07.scheme", scheme), ("c07.util", util), ("c07.cov", cov), ("c07.inversion", inversion),
+   ("c07.rect_neighbors", rectNeighbors)]
 
 end Driver.C07
 
